@@ -309,7 +309,7 @@ func PNG(t *rapid.T, o Opts) File {
 					name[k] = 'n'
 				}
 			}
-			level := rapid.SampledFrom([]int{0, 1, 6, 9, -2}).Draw(t, "level")
+			level := rapid.SampledFrom([]int{0, 1, 6, 9, -2, -10, -11, -12}).Draw(t, "level")
 			c := build.ICCPChunk(string(name), f.ICC, level)
 			p.Pre = append(p.Pre, c)
 			pos += 12 + len(c.Data)
